@@ -350,7 +350,7 @@ static void do_make(char **w, int n)
 		struct archive_entry *e = archive_entry_new();
 		char name[700]; int nl;
 		unsigned kind = (unsigned)(xr(&rng) % 10);
-		if (strcmp(kv(w, n, "big"), "1") == 0 && i % 2 == 0) kind = 9;   /* a large regular file */
+		if ((strcmp(kv(w, n, "big"), "1") == 0 || strcmp(kv(w, n, "big"), "2") == 0) && i % 2 == 0) kind = 9;   /* a large regular file */
 		if (longnames && xr(&rng) % 4 == 0) {
 			static const int lens[] = {99, 100, 101, 154, 155, 156, 255, 256, 300};
 			nl = lens[xr(&rng) % 9];
@@ -361,6 +361,7 @@ static void do_make(char **w, int n)
 		} else snprintf(name, sizeof name, isar ? "f%d.o" : "dir%d/file_%d.dat", isar ? i : i % 3, i);
 		long sz = sizes[xr(&rng) % (sizeof sizes / sizeof sizes[0])];
 		if (israw) sz = 200000 + (long)(xr(&rng) % 150000);    /* multi-block streams */
+		else if (strcmp(kv(w, n, "big"), "2") == 0 && i % 2 == 0) sz = 600000 + (long)(xr(&rng) % 400000);   /* larger than a 256 KiB window even when compressed */
 		else if (strcmp(kv(w, n, "big"), "1") == 0 && i % 2 == 0) sz = 66000 + (long)(xr(&rng) % 400000);   /* beyond one 256 KiB decompression window now and then */
 		archive_entry_set_pathname(e, name);
 		archive_entry_set_mtime(e, 1000000000 + i * 3600, 0);
